@@ -18,6 +18,6 @@ PROP = {
 
 # (category, text, design_ref, technique)
 LEVEL = ("proof",
-         "Losslessness is a Lean 4 theorem for EVERY event trace: the sink (model of Sink::finish / skip_trivia / add_token) adds every token exactly once, in order, and never indexes past the tokens iff the trace has as many AddToken events as there are non-trivia tokens (sink_lossless, sink_panics_iff, sink_lossless_iff, sink_tokens_in_order); any client of the parser kernel that stops at end of input produces exactly such a trace (kernel_counts, kernel_bumps_nontrivia, parse_then_sink_lossless) — since the fix: commit makes bump skip trivia, this holds for every grammar. Termination: guarded_loop_terminates bounds every guarded list loop; the table of grammar loops is regenerated from the source each run. Partial: termination and panic-freedom of the grammar's recursion are not theorems (grammar not modelled); they are monitored on every run over ~90 000 inputs (all sequences <= 3 over a reduced token set, token soups with comments between tokens, corpus mutations, trivia inserted between every pair of adjacent tokens of the corpus files, nesting to 200, both entry points) in child processes with deadlines. The pinned tree hung on `a :: i32.(.[);` and panicked on `x . try`: repaired by a fix: commit.",
+         "Losslessness is a Lean 4 theorem for EVERY event trace: the sink (model of Sink::finish / skip_trivia / add_token) adds every token exactly once, in order, and never indexes past the tokens iff the trace has as many AddToken events as there are non-trivia tokens (sink_lossless, sink_panics_iff, sink_lossless_iff, sink_tokens_in_order); any client of the parser kernel that stops at end of input produces exactly such a trace (kernel_counts, kernel_bumps_nontrivia, parse_then_sink_lossless) — since the fix: commit makes bump skip trivia, this holds for every grammar. Termination: guarded_loop_terminates bounds every guarded list loop; the table of grammar loops is regenerated from the source each run (a guarded loop with a `continue` that jumps over its guard counts as unknown). Partial: termination and panic-freedom of the grammar's recursion are not theorems (grammar not modelled); they are monitored on every run over ~90 000 inputs (all sequences <= 3 over a reduced token set, token soups with comments between tokens, corpus mutations, trivia inserted between every pair of adjacent tokens of the corpus files, nesting to 200, stray separators at element positions of every list construct inside every context that passes a recovery set down, both entry points) in child processes with deadlines. The pinned tree hung on `a :: i32.(.[);` and panicked on `x . try`: repaired by a fix: commit.",
          "§4 C23",
          "Lean 4 proof (sink/kernel refinement for all event traces; loop-progress lemma; regenerated loop table) + monitored fuzzing of the real parser through hook H2")
